@@ -4,4 +4,5 @@ import Vet.Model.Store
 import Vet.Model.AuditGraph
 import Vet.Model.Search
 import Vet.Model.Resolve
+import Vet.Model.Update
 import Vet.Model.Wire
